@@ -121,6 +121,17 @@ func drawYamlFile(t *rapid.T, label, ruleID, ext string) (C13File, string) {
 			}
 		}
 	}
+	if n > 0 && chance(t, 20, label+"-lasttrail") {
+		// the last line with content ends in blanks (e.g. the tail of a block scalar): it is no id line and must stay as it is
+		add("other", "", n, "          data: |")
+		add("other", "", n, "            payload with trailing blanks  \t")
+	}
+	if chance(t, 4, label+"-big") {
+		// a file larger than the scanner's buffer, made of distinct short lines
+		for k := 0; k < 1800; k++ {
+			add("other", "", n, fmt.Sprintf("      # filler line %04d %s", k, strings.Repeat("z", k%37)))
+		}
+	}
 	sets := map[string]bool{}
 	for k := range kinds {
 		if k == "both-rev" {
